@@ -11,6 +11,10 @@
 EXTENDS ScaledBV, Json, IOUtils, TLC
 
 Cases == JsonDeserialize(IOEnv.TRACE_FILE)
+\* a trait that is constant on the axis has variance 0; the library stores unit scale for it (exactly constant values) --
+\* after a derivation whose unscaled values differ by rounding noise the stored scale is that noise (0 on the lattice).
+\* Both describe the raw values to rounding error.
+VarOK(v, T, t, r) == IF VarMM(T, t, r) = 0 THEN v \in {0, Cnt(T, t, r) * Cnt(T, t, r)} ELSE v = VarMM(T, t, r)
 VARIABLE i
 tvars == <<i, ids>>
 
@@ -41,14 +45,14 @@ Verdict(c) ==
        ELSE IF p.grpon /\ \E k \in 1..Len(t) : p.grp[k] # T.grp[t[k] + 1] THEN <<"taxon-group-detached", 0>>
        ELSE IF ~p.statlat THEN <<"summary-not-on-the-expected-lattice", 0>>
        ELSE IF \E r \in live : p.locm[r] # MeanM(T, t, r) THEN <<"location-is-not-the-mean-of-the-raw-values", CHOOSE r \in live : p.locm[r] # MeanM(T, t, r)>>
-       ELSE IF \E r \in live : p.varmm[r] # ScaleMM(T, t, r)
-            THEN <<"scale-is-not-the-std-of-the-raw-values", CHOOSE r \in live : p.varmm[r] # ScaleMM(T, t, r)>>
+       ELSE IF \E r \in live : ~VarOK(p.varmm[r], T, t, r)
+            THEN <<"scale-is-not-the-std-of-the-raw-values", CHOOSE r \in live : ~VarOK(p.varmm[r], T, t, r)>>
        ELSE IF \E r \in full : p.tmaxu[r] # MaxRaw(T, t, r) THEN <<"tmax", 0>>
        ELSE IF \E r \in full : p.tminu[r] # MinRaw(T, t, r) THEN <<"tmin", 0>>
        ELSE IF \E r \in full : p.trngu[r] # MaxRaw(T, t, r) - MinRaw(T, t, r) THEN <<"trange", 0>>
        ELSE IF \E r \in live : p.tmeanm[r] # MeanM(T, t, r) THEN <<"tmean", 0>>
-       ELSE IF \E r \in live : p.tvarmm[r] # ScaleMM(T, t, r) THEN <<"tvar", 0>>
-       ELSE IF \E r \in live : p.tstdmm[r] # ScaleMM(T, t, r) THEN <<"tstd", 0>>
+       ELSE IF \E r \in live : ~VarOK(p.tvarmm[r], T, t, r) THEN <<"tvar", 0>>
+       ELSE IF \E r \in live : ~VarOK(p.tstdmm[r], T, t, r) THEN <<"tstd", 0>>
        ELSE IF \E r \in full : p.smax[r] # MaxRaw(T, t, r) \/ p.smin[r] # MinRaw(T, t, r) THEN <<"stored-scale-extrema", 0>>
        ELSE IF \E r \in full : ~(p.amax[r] \in 0..(Len(t) - 1) /\ Raw(T, t[p.amax[r] + 1], r) = MaxRaw(T, t, r)) THEN <<"targmax", 0>>
        ELSE IF \E r \in full : ~(p.amin[r] \in 0..(Len(t) - 1) /\ Raw(T, t[p.amin[r] + 1], r) = MinRaw(T, t, r)) THEN <<"targmin", 0>>
